@@ -363,6 +363,13 @@ def run(rec):
     items += [("equiv",) + e for e in eq]
     items.append(("engine_symshape", 1000))
     rec.parallel(_work, items)
+    # the STOCHASTIC grid engines use the same relation: their diffusion channels (one per species, cell and neighbour of the table) are
+    # compared with the specification built from the Python side's neighbour relation - the legs of C07, on grids, under this property
+    rec.assume("stochastic grid engines: the propensity tables (Gillespie) and the Poisson means (tau-leap) have exactly one diffusion channel per (species, cell, neighbour of the specification relation), cell 0 and wrap contacts included (C07's legs on 3 grids)")
+    rec.encoded("Gillespie3D::ComputePropensities / TauLeap3D::Compute_nevt, Apply_nevt (diffusion channels follow the neighbour table)")
+    from .C07 import _work as c07_work
+    rec.parallel(c07_work, [("none", ("grid", 3, 1, 1, 1), "tauleap"), ("none", ("grid", 2, 2, 1, 0), "tauleap"), ("none", ("grid", 3, 1, 1, 1), "gillespie"), ("none", ("grid", 1, 2, 2, 2), "gillespie")],
+                 item_budget_s=240)
     fp_lemma(rec, 8 if q else 12)
     text, conds = gen(rec.tier, rec.seed)
     mod = pysym.write_module("hgen_C15", text)
